@@ -241,7 +241,7 @@ class C20(Prop):
     def generate(self, tier, rnd):
         cases = [witness_d7()]
         cases += systematic_cases(rnd, (0, 1, 2) if tier == "quick" else (0, 1, 2, 3))
-        n = 1500 if tier == "quick" else 40000
+        n = 1500 if tier == "quick" else 120000
         for _ in range(n):
             cases.append({"recipe": random_closed_tree(rnd, rnd.choice([2, 4, 8, 12, 16]))})
         for _ in range(4 if tier == "quick" else 150):
@@ -293,7 +293,7 @@ class C20(Prop):
                    "model_cases": [(queries[q + i], outs[q + i]) for i in range(4)]}
             res["tags"] = {"jobs": min(len(rec["jobs"]), 20) if len(rec["jobs"]) < 100 else "100+",
                            "edges": min(len(rec["edges"]), 12), "nested": nested, "empty_nested": empties,
-                           "raised": bool(o["dot_exc"])}
+                           "raised": bool(o["dot_exc"]), "d7_class": d7_class(rec)}
             if nested or rec["edges"] or quoted:
                 res["nontrivial"] = (shape_key(rec), tuple(j.get("label") for j in rec["jobs"]))
             problems = []
